@@ -233,7 +233,11 @@ def gen20(rnd):
 
 SCRIPTED20 = [dict(compress=False, kinds=['1.0'] * 4, crash_at=2, torn=None, neighbours=0, resession=0, two=True),
               dict(compress=True, kinds=['2.0'] * 4, crash_at=1, torn=None, neighbours=1, resession=0, two=True),
-              dict(compress=False, kinds=['1.0'] * 5, crash_at=3, torn=None, neighbours=0, resession=2, two=True)]
+              dict(compress=False, kinds=['1.0'] * 5, crash_at=3, torn=None, neighbours=0, resession=2, two=True)] + \
+             [dict(compress=False, kinds=['1.0'] * 4, crash_at=k, torn=None, neighbours=0, resession=0, runspec=rs)
+              for rs in ([0.25, 4.75, 0.5], [0.5, 9.5, 1.0], [0.0, 2.0, 0.125], [1.0, 1.06, 0.005]) for k in (1, 3)] + \
+             [dict(compress=False, kinds=['2.0'] * 3, crash_at=2, torn=None, neighbours=1, resession=1),
+              dict(compress=True, kinds=['1.0'] * 3, crash_at=2, torn=None, neighbours=0, resession=2)]
 
 
 def known_probes(prop):
